@@ -229,8 +229,14 @@ class PKONESerialCommunicator(BaseSerialCommunicator):
             if not msg:
                 continue
 
-            if msg.decode() not in self.ignored_messages:
-                self.platform.process_received_message(msg.decode())
+            try:
+                decoded_msg = msg.decode()
+            except UnicodeDecodeError:
+                self.log.warning("Received undecodable bytes from PKONE: %s", msg)
+                continue
+
+            if decoded_msg not in self.ignored_messages:
+                self.platform.process_received_message(decoded_msg)
 
     def send(self, msg):
         """Send a message to the remote processor over the serial connection.
